@@ -25,3 +25,41 @@ def _acc_model(kind, on_ok):
 REGISTER_CUT = {'file': APA, 'fn': 'register_account', 'body': _acc_model(1, '\te.ca_key_kid = account.current_key.key.inner_key.kid;\n\taccount.set_account_url(&endpoint.name, "u")?;\n\taccount.update_key_hash(&endpoint.name)?;\n\taccount.update_contacts_hash(&endpoint.name)?;\n\taccount.update_external_account_hash(&endpoint.name)?;\n')}
 CONTACTS_CUT = {'file': APA, 'fn': 'update_account_contacts', 'body': _acc_model(2, '\taccount.update_contacts_hash(&endpoint.name)?;\n')}
 KEY_CUT = {'file': APA, 'fn': 'update_account_key', 'body': _acc_model(3, '\te.ca_key_kid = account.current_key.key.inner_key.kid;\n\taccount.update_key_hash(&endpoint.name)?;\n')}
+
+CRTF = 'acmed/src/certificate.rs'
+MLF = 'acmed/src/main_event_loop.rs'
+SCHED_CUT = {'file': CRTF, 'fn': 'schedule_renewal', 'body': '\t\tlet e = crate::verif_env::env();\n\t\te.ml_sched_calls += 1;\n\t\tif kani::any() { return Err("scheduling error".into()); }\n\t\tlet s: u32 = kani::any();\n\t\tOk(Duration::from_secs(s as u64))'}
+POSTOP_CUT = {'file': CRTF, 'fn': 'call_post_operation_hooks', 'body': '\t\tlet e = crate::verif_env::env();\n\t\te.ml_post_calls += 1;\n\t\te.ml_post_success = is_success;\n\t\te.ml_post_status_is_success_word = status == "success";\n\t\te.ml_post_status_len = status.len();\n\t\tif kani::any() { return Err("hook failed".into()); }\n\t\tOk(())'}
+REQCERT_CUT = {'file': 'acmed/src/acme_proto.rs', 'fn': 'request_certificate', 'body': '\tlet e = crate::verif_env::env();\n\tif (e.ml_req_calls as usize) < 3 { e.ml_ms_at_req[e.ml_req_calls as usize] = e.slept_req_ms; }\n\te.ml_req_calls += 1;\n\tlet ok: bool = kani::any();\n\te.ml_req_ok = ok;\n\tif ok { Ok(()) } else { Err("request failed".into()) }'}
+ML_SLEEP_CUT = {'file': MLF, 'replace': 'use tokio::time::sleep;', 'with': 'use crate::verif_env::sleep;'}
+
+HTTPF = 'acmed/src/http.rs'
+ERRF = 'acmed/src/acme_proto/structs/error.rs'
+HTTP_EDITS = [
+    {'file': HTTPF, 'fn': 'rate_limit', 'body': '\treqwest::st().limiter_passes += 1;'},
+    {'file': HTTPF, 'replace': 'let api_err = resp.json::<HttpApiError>()?;', 'with': 'let api_err = crate::acme_proto::structs::verif_api_error(&resp.body)?;'},
+    {'file': HTTPF, 'replace': 'thread::sleep(time::Duration::from_secs(crate::DEFAULT_HTTP_FAIL_WAIT_SEC));', 'with': 'let _ = crate::DEFAULT_HTTP_FAIL_WAIT_SEC;'},
+    {'file': HTTPF, 'regex': r'impl From<reqwest::Error> for HttpError \{\s*fn from\(error: reqwest::Error\) -> Self \{\s*HttpError::GenericError\(error\.into\(\)\)', 'with': 'impl From<reqwest::Error> for HttpError {\n\tfn from(error: reqwest::Error) -> Self {\n\t\tlet _ = error;\n\t\tHttpError::GenericError("transport error".into())'},
+    {'file': ERRF, 'append': """#[cfg(kani)]
+pub fn verif_api_error(body: &str) -> Result<HttpApiError, Error> {
+    let t = match body.as_bytes().first() {
+        Some(b'N') => Some("urn:ietf:params:acme:error:badNonce"),
+        Some(b'S') => Some("urn:ietf:params:acme:error:serverInternal"),
+        Some(b'R') => Some("urn:ietf:params:acme:error:rateLimited"),
+        Some(b'U') => Some("urn:ietf:params:acme:error:unauthorized"),
+        Some(b'A') => Some("urn:ietf:params:acme:error:accountDoesNotExist"),
+        Some(b'X') => Some("urn:example:unknown"),
+        Some(b'-') => None,
+        _ => return Err("not a JSON problem document".into()),
+    };
+    Ok(HttpApiError { error_type: t.map(|s| s.to_string()), status: None, detail: None })
+}
+"""},
+    {'file': 'acmed/src/acme_proto/structs.rs', 'replace': 'pub use error::{AcmeError, ApiError, HttpApiError};', 'with': 'pub use error::{AcmeError, ApiError, HttpApiError};\n#[cfg(kani)]\npub use error::verif_api_error;'},
+]
+HTTP_ASSUMPTIONS = [
+    'reqwest model (env/reqwest_env): scripted server; per send the solver chooses transport error | 2xx | non-2xx, nonce header absent/valid/malformed, one of 8 problem documents; nonces pairwise distinct (RFC 8555 6.5)',
+    'http::rate_limit cut to a pass counter (RateLimit itself is decided in harness/endpoint.rs)',
+    'problem document parsing cut: the body\'s first byte selects the HttpApiError (serde_json trusted); classification of the type string stays the real code',
+    'thread::sleep in the retry loop removed (expression cut); RandomState/fmt::format stubbed',
+]
